@@ -1,5 +1,6 @@
 import Driver.TypesCodec
 import GarbleVerif.Model.SrcSem
+import GarbleVerif.Model.MatchSpec
 open Lean
 namespace GVD
 open GV GV.Src
@@ -128,5 +129,30 @@ def srcEval (case : Json) : Json :=
     | .error (.panic k) => Json.mkObj [("panic", panicName k)]
     | .error (.stuck w) => Json.mkObj [("stuck", w)]
     | .error .fuel => Json.mkObj [("stuck", "fuel")]).toArray)]
+
+end GVD
+
+namespace GVD
+open GV GV.Src
+
+/-- `{ty, pats, values, witnesses}` → the reference verdict on exhaustiveness, the first matching
+arm for each value, and for each reported witness pattern how many representative values it
+denotes and one of them that some arm matches (if any) -/
+def matchOracle (case : Json) : Json :=
+  let ty := tyFromJson (field case "ty")
+  let pats := (getArr (field case "pats")).map patFromJson
+  let values := (getArr (field case "values")).map valFromJson
+  let wits := (getArr (field case "witnesses")).map patFromJson
+  let cs := pats.flatMap patConsts
+  let reps := tyReps cs ty
+  let first := values.map fun v => match firstMatch v pats with | some i => toJson i | none => Json.null
+  let witInfo := wits.map fun w =>
+    let cs' := cs ++ patConsts w
+    let denoted := (tyReps cs' ty).filter fun v => (matchPat w v).isSome
+    let bad := denoted.find? fun v => (firstMatch v pats).isSome
+    Json.mkObj [("denotes", denoted.length), ("matched", match bad with | some v => valToJson v | none => Json.null)]
+  Json.mkObj [("uncovered", match uncovered ty pats with | some v => valToJson v | none => Json.null),
+    ("reps", reps.length), ("rep_values", Json.arr ((reps.take 40).map valToJson).toArray),
+    ("first", Json.arr first.toArray), ("witnesses", Json.arr witInfo.toArray)]
 
 end GVD
